@@ -26,6 +26,8 @@ CONSTANTS
   Faults,        \* subset of {"cutsrc","endsrc","cutsink"}
   AdvMsgs, MaxAdv, \* adversary: messages that may be injected towards "A", and how many
   Bridgers,      \* endpoints whose application hands its streams to the bridge (C13)
+  SplitFlush,    \* TRUE: the flush that follows every message of the main loop is a separate step (the sink may take its
+                 \* time); FALSE: message and flush are one step
   MaxNow,        \* virtual time may advance (by one second at a time) up to this value; 0 = time stands still
   MaxHandles,    \* state constraint: handles per endpoint
   MaxCtr         \* state constraint: connect attempts + binds + datagrams in one behaviour
@@ -111,9 +113,11 @@ TUnblock(e) == /\ st.task[e].ph = "run" /\ st.rxblk[e].k # "none"
                /\ st' = Unblock(st, e) /\ st' # st
 TRecv(e)  == /\ st.task[e].ph = "run" /\ st.rxblk[e].k = "none" /\ SrcHasMsg(st, e)
              /\ st' = RecvOne(st, e)
-TSend(e)  == /\ st.task[e].ph = "run" /\ st.sink[e] = "open" /\ st.outq[e] # <<>>
-             /\ st' = SendOne(st, e)
-TSinkErr(e) == /\ st.task[e].ph = "run"
+TSend(e)  == /\ st.task[e].ph = "run" /\ st.sink[e] = "open" /\ st.outq[e] # <<>> /\ ~st.fl[e]
+             /\ st' = IF SplitFlush THEN [SendOne(st, e) EXCEPT !.fl[e] = TRUE] ELSE Flush(SendOne(st, e), e)
+TFlush(e) == /\ st.task[e].ph = "run" /\ st.fl[e]
+             /\ st' = FlushStep(st, e)
+TSinkErr(e) == /\ st.task[e].ph = "run" /\ ~st.fl[e]
                /\ \/ st.sink[e] \in {"cut", "closed"} /\ st' = BeginWd(st, e, FALSE, "ws")
                   \/ st.sink[e] = "softcut" /\ st.outq[e] # <<>>
                      /\ st' = BeginWd([st EXCEPT !.outq[e] = Tail(@)], e, FALSE, "ws")
@@ -143,7 +147,7 @@ Next ==
        \/ AShutdown(e) \/ ADropStream(e) \/ ADropMux(e) \/ ACancel(e)
        \/ ASendDgram(e) \/ AGetDgram(e)
        \/ ABindStart(e) \/ ABindPoll(e) \/ ANextBind(e) \/ ABindReply(e) \/ ABindDrop(e)
-       \/ TUnblock(e) \/ TRecv(e) \/ TSend(e) \/ TSinkErr(e) \/ TKa(e) \/ TDrop(e) \/ TWd(e)
+       \/ TUnblock(e) \/ TRecv(e) \/ TSend(e) \/ TFlush(e) \/ TSinkErr(e) \/ TKa(e) \/ TDrop(e) \/ TWd(e)
        \/ AFault(e)
        \/ ABridgeStart(e) \/ ABridgePoll(e) \/ ABridgeDrop(e)
   \/ AAdv
@@ -154,7 +158,7 @@ Spec == Init /\ [][Next]_vars
 (* C08, liveness at design level: a connection task that has left its main loop finishes, whatever the applications
    do -- provided both connection tasks keep being polled and an application whose accept queue is full keeps
    accepting (the receive loop of its task is stalled until it does).  Checked without VIEW. *)
-TaskStep == \E e \in E : TUnblock(e) \/ TRecv(e) \/ TSend(e) \/ TSinkErr(e) \/ TKa(e) \/ TDrop(e) \/ TWd(e)
+TaskStep == \E e \in E : TUnblock(e) \/ TRecv(e) \/ TSend(e) \/ TFlush(e) \/ TSinkErr(e) \/ TKa(e) \/ TDrop(e) \/ TWd(e)
 AcceptStep == \E e \in E : AAccept(e)
 FairSpec == Init /\ [][Next]_vars /\ WF_vars(TaskStep) /\ WF_vars(AcceptStep)
 WdTerminates == \A e \in E : (st.task[e].ph \notin {"run", "done"}) ~> (st.task[e].ph = "done")
@@ -205,7 +209,7 @@ BoundedRetry ==
      st.calls[e][c].k = "open" => st.calls[e][c].tries <= st.cfg[e].retries
 
 (* C06: quiescent => no slot is held for a stream whose handle is gone *)
-Quiet == \A e \in E : st.outq[e] = <<>> /\ st.wire[e] = <<>> /\ st.drops[e] = <<>> /\ st.rxblk[e].k = "none"
+Quiet == \A e \in E : st.outq[e] = <<>> /\ st.wire[e] = <<>> /\ st.unfl[e] = <<>> /\ st.drops[e] = <<>> /\ st.rxblk[e].k = "none"
 Released ==
   (Quiet /\ ~st.confused) => \A e \in E : st.task[e].ph = "run" =>
      \A id \in DOMAIN st.slot[e] :
